@@ -245,12 +245,12 @@ CHECKS['C15'] = {
     },
     'clause_prefixes': ['c15'],
     'technique': 'contract-based deductive verification (Verus): lemmas (induction, multiset permutation) over the step functions that the extracted GroupAggregator::update arms are proved to implement',
-    'claim': 'Proof that an INT SUM that succeeds equals the mathematical sum of the values and that the mathematical sum is invariant under every permutation (multiset equality) and additive over concatenation; BOOL_AND over a concatenation is the conjunction of the parts; the MIN fold returns a lower bound of all values in any order (given the order laws of C16 as hypotheses), COUNT(DISTINCT) and PERCENTILE collect sets/multisets; the aggregator start value does not privilege the first value. Linked to the real code through the per-arm step contracts (C04). Float sums are excluded as in the property; PERCENTILE\'s sort+index and the union of group sets (table assembly) are not covered.',
+    'claim': 'Proof that an INT SUM that succeeds equals the mathematical sum of the values and that the mathematical sum is invariant under every permutation (multiset equality) and additive over concatenation; BOOL_AND over a concatenation is the conjunction of the parts; the MIN fold returns a lower bound of all values in any order (given the order laws of C16 as hypotheses), COUNT(DISTINCT) and PERCENTILE collect sets/multisets; the aggregator start value does not privilege the first value. Linked to the real code through the per-arm step contracts (C04). PERCENTILE: update_value leaves a sorted arrangement of the multiset of collected values and shows the element at a rank that depends on their number only (contract of the extracted arm), and two sorted arrangements of one multiset agree position by position up to the equality of the order (lemma_sorted_arrangements_agree, induction over the length) - so the value shown does not depend on the arrival order (lemma_percentile_depends_on_the_multiset_only). Float sums are excluded as in the property; the union of group sets (table assembly) is not covered.',
     'note': 'Trusted: as C04. Order-dependence through overflow of partial sums is handled as in the code: a run either reports an error or shows the exact sum.',
     'level': 'proof',
     'explanation': 'lemma_math_sum_permutation is a full permutation-invariance proof over multisets; the other aggregates are shown commutative/associative at the step level.',
     'trusted': COMMON_TRUST + ['value_cmp total-preorder laws enter the lemmas as hypotheses; for REAL and the other scalar variants they are re-checked by the Kani harnesses of C16 in this check'],
-    'unproved': ['PERCENTILE', 'group-set union across inputs (table assembly)'],
+    'unproved': ['Vec<Value>::sort (sorted-permutation stand-in)', 'group-set union across inputs (table assembly)'],
 }
 
 CHECKS['C05'] = {
